@@ -764,3 +764,275 @@ Section Step4.
     intros r c Hr Hc. apply (Hdone r); auto.
   Qed.
 End Step4.
+
+(* ================================================================ cross_support *)
+
+(* the image after np.nan_to_num(nan=inf): a masked pixel is +inf *)
+Definition of_img (o : option Q) : fl := match o with Some q => Fin q | None => PInf end.
+
+Lemma qle_bool_ext : forall a b b', b == b' -> Qle_bool a b = Qle_bool a b'.
+Proof.
+  intros a b b' H. destruct (Qle_bool a b) eqn:E1; destruct (Qle_bool a b') eqn:E2; auto.
+  - apply Qle_bool_iff in E1. rewrite H in E1. apply Qle_bool_iff in E1. congruence.
+  - apply Qle_bool_iff in E2. rewrite <- H in E2. apply Qle_bool_iff in E2. congruence.
+Qed.
+
+(* abs(image[p] - image[q]) >= intensity, as IEEE computes it, is the model's [jump] *)
+Lemma fle_jump : forall inten v w, fle (Fin inten) (fabs (fsub (Fin v) (of_img w))) = jump v w inten.
+Proof.
+  intros. destruct w as [x|]; cbn [of_img fsub fabs fle jump fneg fadd]; [|reflexivity].
+  apply qle_bool_ext. rewrite Qred_correct. reflexivity.
+Qed.
+
+Lemma vun_isfinite_img : forall o, vun IsFinite (VFlt (of_img o)) = Some (VInt (b2z (isfin o))).
+Proof. destruct o; reflexivity. Qed.
+
+Lemma in_range_dec : forall a b q, In q (range_dec a b) -> b < q <= a.
+Proof.
+  intros a b q H. unfold range_dec in H. apply in_map_iff in H. destruct H as (k & <- & Hk).
+  apply in_seq in Hk. lia.
+Qed.
+Lemma in_range_inc : forall a b q, In q (range_inc a b) -> a <= q < b.
+Proof. intros a b q H. unfold range_inc in H. apply in_zrange in H. lia. Qed.
+
+(* `for x in cands: if jump: break; len += 1` on a state described by (len, x) *)
+Lemma loop_arm : forall (mk : Z -> Z -> state) (x : nat) (body : state -> res) line v inten,
+  (forall l q q', setv x (VInt q') (mk l q) = mk l q') ->
+  forall cands,
+  (forall l q, In q cands ->
+     body (mk l q) = if jump v (line q) inten then RBrk (mk l q) else ROk (mk (l + 1) q)) ->
+  forall l q0,
+  loop body x cands (mk l q0)
+  = ROk (mk (fst (arm_scan line v inten cands l q0)) (snd (arm_scan line v inten cands l q0))).
+Proof.
+  intros mk x body line v inten Hset. induction cands as [|q rest IH]; intros Hbody l q0.
+  - reflexivity.
+  - cbn [loop arm_scan]. rewrite Hset. rewrite Hbody by (left; reflexivity).
+    destruct (jump v (line q) inten); [reflexivity|].
+    apply IH. intros l' q' Hq'. apply Hbody. right. exact Hq'.
+Qed.
+
+Lemma arm_scan_last : forall line v inten cands l q0,
+  snd (arm_scan line v inten cands l q0) = q0 \/ In (snd (arm_scan line v inten cands l q0)) cands.
+Proof.
+  induction cands as [|q rest IH]; intros l q0; cbn [arm_scan].
+  - left. reflexivity.
+  - destruct (jump v (line q) inten); cbn [snd].
+    + right. left. reflexivity.
+    + destruct (IH (l + 1) q) as [H | H]; [right; left; symmetry; exact H | right; right; exact H].
+Qed.
+
+Section CrossSupport.
+  Variables (nr nc len : Z) (inten : Q) (I : img) (IM : arr).
+  Hypothesis Hnr : 0 <= nr.
+  Hypothesis Hnc : 0 <= nc.
+  Hypothesis HIM : ashape IM = [nr; nc].
+  Hypothesis HIMd : forall r c, 0 <= r < nr -> 0 <= c < nc -> adata IM [r; c] = VFlt (of_img (I r c)).
+
+  Let cs := Cbca.cross_support nr nc I len inten.
+
+  Let row_done (C : arr) (r : Z) : Prop :=
+    forall c k, 0 <= c < nc -> 0 <= k < 4 -> adata C [r; c; k] = VInt (arm_at (cs r c) k).
+  Let I_in (r c : Z) (st : state) : Prop :=
+    exists C o5 o6 o7 o8 o9 o10 o11 o12 o13,
+      st = mkSt [Some (VInt len); Some (VFlt (Fin inten)); Some (VInt nr); Some (VInt nc); Some (VInt r);
+                 o5; o6; o7; o8; o9; o10; o11; o12; o13] [Some IM; Some C] /\
+      ashape C = [nr; nc; 4] /\
+      (forall r', 0 <= r' < r -> row_done C r') /\
+      (forall r' c' k, r < r' -> adata C [r'; c'; k] = VInt 0) /\
+      (forall c' k, 0 <= c' < c -> 0 <= k < 4 -> adata C [r; c'; k] = VInt (arm_at (cs r c') k)) /\
+      (forall c' k, c <= c' -> adata C [r; c'; k] = VInt 0).
+  Let I_out (r : Z) (st : state) : Prop :=
+    exists C o4 o5 o6 o7 o8 o9 o10 o11 o12 o13,
+      st = mkSt [Some (VInt len); Some (VFlt (Fin inten)); Some (VInt nr); Some (VInt nc); o4;
+                 o5; o6; o7; o8; o9; o10; o11; o12; o13] [Some IM; Some C] /\
+      ashape C = [nr; nc; 4] /\
+      (forall r', 0 <= r' < r -> row_done C r') /\
+      (forall r' c' k, r <= r' -> adata C [r'; c'; k] = VInt 0).
+
+  Lemma arm_at_arms0 : forall k, arm_at arms0 k = 0.
+  Proof. intros. unfold arm_at. destruct (k =? 0), (k =? 1), (k =? 2); reflexivity. Qed.
+
+  Theorem ir_cross_support :
+    exists C, run_kernel CbcaIR.cross_support [VInt len; VFlt (Fin inten)] [IM] = Some [C] /\
+      arms_arr C nr nc cs.
+  Proof.
+    unfold run_kernel. kred. do 3 (rewrite exec_block_cons; kred; rewrite ?HIM; kred).
+    replace ((0 <=? nr) && ((0 <=? nc) && ((0 <=? 4) && true))) with true by lia.
+    rewrite exec_block_cons, exec_for. kred. rewrite py_range_up. replace (nr - 0) with nr by lia.
+    set (body := exec_block _). knorm.
+    set (Z0 := mkArr [nr; nc; 4] (fun _ => VInt 0)).
+    destruct (loop_zrange' body 4%nat I_out 0 nr
+               (mkSt [Some (VInt len); Some (VFlt (Fin inten)); Some (VInt nr); Some (VInt nc); None;
+                      None; None; None; None; None; None; None; None; None] [Some IM; Some Z0])) as (st' & E & I'); auto.
+    { exists Z0, None, None, None, None, None, None, None, None, None, None.
+      split; [reflexivity | split; [reflexivity | split]]; [intros; lia | reflexivity]. }
+    { (* one image row *)
+      intros r st0 Hr (C & o4 & o5 & o6 & o7 & o8 & o9 & o10 & o11 & o12 & o13 & -> & HC & Hdone & Hzero).
+      unfold body. kred. rewrite exec_block_cons, exec_for. kred. rewrite py_range_up.
+      replace (nc - 0) with nc by lia. set (body2 := exec_block _). knorm.
+      destruct (loop_zrange' body2 5%nat (I_in r) 0 nc
+                 (mkSt [Some (VInt len); Some (VFlt (Fin inten)); Some (VInt nr); Some (VInt nc); Some (VInt r);
+                        o5; o6; o7; o8; o9; o10; o11; o12; o13] [Some IM; Some C])) as (st2 & E2' & I2); auto.
+      { exists C, o5, o6, o7, o8, o9, o10, o11, o12, o13.
+        split; [reflexivity | split; [assumption | split; [assumption | split; [| split]]]].
+        - intros. apply Hzero. lia.
+        - intros. lia.
+        - intros. apply Hzero. lia. }
+      { (* one pixel *)
+        intros c st1 Hc (C1 & o5' & o6' & o7' & o8' & o9' & o10' & o11' & o12' & o13' & -> & HC1 & Hdone1 & Hzero1 & Hlt & Hge).
+        unfold body2. kred. rewrite exec_block_cons, exec_if. kred.
+        rewrite (aread2_ok IM nr nc) by (auto; lia). rewrite HIMd by lia. rewrite vun_isfinite_img. kred.
+        destruct (I r c) as [v|] eqn:Ev; cbn [isfin b2z Z.eqb Pos.eqb].
+        2:{ (* masked pixel: the four arms stay 0 *)
+          rewrite !exec_block_nil. eexists. split; [reflexivity|].
+          exists C1, (Some (VInt c)), o6', o7', o8', o9', o10', o11', o12', o13'.
+          split; [reflexivity | split; [assumption | split; [assumption | split; [assumption | split]]]].
+          - intros c' k Hc' Hk. destruct (Z.eq_dec c' c) as [->|].
+            + rewrite Hge by lia. unfold cs, Cbca.cross_support. rewrite Ev. rewrite arm_at_arms0. reflexivity.
+            + apply Hlt; lia.
+          - intros c' k Hc'. apply Hge. lia. }
+        knorm.
+        (* ---- arm 0 *)
+        rewrite exec_block_cons; kred. rewrite exec_block_cons; kred.
+        rewrite exec_block_cons, exec_for; kred. rewrite py_range_down.
+        set (bodyA0 := exec_block _). knorm.
+        match goal with
+        | |- context [loop bodyA0 ?x ?cands (mkSt [?a0; ?a1; ?a2; ?a3; ?a4; ?a5; ?a6; ?a7; ?a8; ?a9; ?a10; ?a11; ?a12; ?a13] ?arrs)] =>
+            match a6 with Some (VInt ?L0) => match a7 with Some (VInt ?Q0) =>
+              pose proof (arm_scan_last (fun k => I r k) v inten cands L0 Q0) as Hlast0;
+              assert (HL0 : loop bodyA0 x cands (mkSt [a0; a1; a2; a3; a4; a5; a6; a7; a8; a9; a10; a11; a12; a13] arrs)
+                        = ROk ((fun l' q' => mkSt [a0; a1; a2; a3; a4; a5; Some (VInt l'); Some (VInt q'); a8; a9; a10; a11; a12; a13] arrs)
+                                 (fst (arm_scan (fun k => I r k) v inten cands L0 Q0))
+                                 (snd (arm_scan (fun k => I r k) v inten cands L0 Q0))));
+              [apply (loop_arm (fun l' q' => mkSt [a0; a1; a2; a3; a4; a5; Some (VInt l'); Some (VInt q'); a8; a9; a10; a11; a12; a13] arrs) x bodyA0 (fun k => I r k) v inten (fun _ _ _ => eq_refl) cands) |]
+            end end
+        end.
+        { intros l q Hq. apply in_range_dec in Hq. unfold bodyA0. rewrite exec_block_cons, exec_if. kred.
+          rewrite !(aread2_ok IM nr nc) by (auto; lia). rewrite !HIMd by lia. rewrite Ev. cbn [of_img]. kred.
+          rewrite fle_jump. destruct (jump v _ inten); cbn [bz Z.eqb Pos.eqb].
+          - rewrite exec_block_cons. kred. reflexivity.
+          - rewrite exec_block_nil. rewrite exec_block_cons. kred. rewrite exec_block_nil. reflexivity. }
+        rewrite HL0. clear HL0. cbv beta.
+        match goal with |- context [fst (arm_scan ?a ?b ?c0 ?d ?e ?f)] => destruct (arm_scan a b c0 d e f) as [l0 q0] eqn:Es0 end. try rewrite Es0 in Hlast0. cbn [fst snd] in Hlast0 |- *.
+        assert (Hq0 : 0 <= q0 < nc).
+        { destruct Hlast0 as [-> | Hlast0]; [lia | apply in_range_dec in Hlast0; lia]. }
+        rewrite exec_block_cons; kred.
+        rewrite (aread2_ok IM nr nc) by (auto; lia). rewrite HIMd by lia. rewrite vun_isfinite_img. kred.
+        rewrite (awrite3_ok _ nr nc 4) by (auto; lia). kred.
+        (* ---- arm 1 *)
+        rewrite exec_block_cons; kred. rewrite exec_block_cons; kred.
+        rewrite exec_block_cons, exec_for; kred. rewrite py_range_up.
+        set (bodyA1 := exec_block _). knorm.
+        match goal with
+        | |- context [loop bodyA1 ?x ?cands (mkSt [?a0; ?a1; ?a2; ?a3; ?a4; ?a5; ?a6; ?a7; ?a8; ?a9; ?a10; ?a11; ?a12; ?a13] ?arrs)] =>
+            match a8 with Some (VInt ?L0) => match a9 with Some (VInt ?Q0) =>
+              pose proof (arm_scan_last (fun k => I r k) v inten cands L0 Q0) as Hlast1;
+              assert (HL1 : loop bodyA1 x cands (mkSt [a0; a1; a2; a3; a4; a5; a6; a7; a8; a9; a10; a11; a12; a13] arrs)
+                        = ROk ((fun l' q' => mkSt [a0; a1; a2; a3; a4; a5; a6; a7; Some (VInt l'); Some (VInt q'); a10; a11; a12; a13] arrs)
+                                 (fst (arm_scan (fun k => I r k) v inten cands L0 Q0))
+                                 (snd (arm_scan (fun k => I r k) v inten cands L0 Q0))));
+              [apply (loop_arm (fun l' q' => mkSt [a0; a1; a2; a3; a4; a5; a6; a7; Some (VInt l'); Some (VInt q'); a10; a11; a12; a13] arrs) x bodyA1 (fun k => I r k) v inten (fun _ _ _ => eq_refl) cands) |]
+            end end
+        end.
+        { intros l q Hq. apply in_range_inc in Hq. unfold bodyA1. rewrite exec_block_cons, exec_if. kred.
+          rewrite !(aread2_ok IM nr nc) by (auto; lia). rewrite !HIMd by lia. rewrite Ev. cbn [of_img]. kred.
+          rewrite fle_jump. destruct (jump v _ inten); cbn [bz Z.eqb Pos.eqb].
+          - rewrite exec_block_cons. kred. reflexivity.
+          - rewrite exec_block_nil. rewrite exec_block_cons. kred. rewrite exec_block_nil. reflexivity. }
+        rewrite HL1. clear HL1. cbv beta.
+        match goal with |- context [fst (arm_scan ?a ?b ?c0 ?d ?e ?f)] => destruct (arm_scan a b c0 d e f) as [l1 q1] eqn:Es1 end. try rewrite Es1 in Hlast1. cbn [fst snd] in Hlast1 |- *.
+        assert (Hq1 : 0 <= q1 < nc).
+        { destruct Hlast1 as [-> | Hlast1]; [lia | apply in_range_inc in Hlast1; lia]. }
+        rewrite exec_block_cons; kred.
+        rewrite (aread2_ok IM nr nc) by (auto; lia). rewrite HIMd by lia. rewrite vun_isfinite_img. kred.
+        rewrite (awrite3_ok _ nr nc 4) by (auto; lia). kred.
+        (* ---- arm 2 *)
+        rewrite exec_block_cons; kred. rewrite exec_block_cons; kred.
+        rewrite exec_block_cons, exec_for; kred. rewrite py_range_down.
+        set (bodyA2 := exec_block _). knorm.
+        match goal with
+        | |- context [loop bodyA2 ?x ?cands (mkSt [?a0; ?a1; ?a2; ?a3; ?a4; ?a5; ?a6; ?a7; ?a8; ?a9; ?a10; ?a11; ?a12; ?a13] ?arrs)] =>
+            match a10 with Some (VInt ?L0) => match a11 with Some (VInt ?Q0) =>
+              pose proof (arm_scan_last (fun k => I k c) v inten cands L0 Q0) as Hlast2;
+              assert (HL2 : loop bodyA2 x cands (mkSt [a0; a1; a2; a3; a4; a5; a6; a7; a8; a9; a10; a11; a12; a13] arrs)
+                        = ROk ((fun l' q' => mkSt [a0; a1; a2; a3; a4; a5; a6; a7; a8; a9; Some (VInt l'); Some (VInt q'); a12; a13] arrs)
+                                 (fst (arm_scan (fun k => I k c) v inten cands L0 Q0))
+                                 (snd (arm_scan (fun k => I k c) v inten cands L0 Q0))));
+              [apply (loop_arm (fun l' q' => mkSt [a0; a1; a2; a3; a4; a5; a6; a7; a8; a9; Some (VInt l'); Some (VInt q'); a12; a13] arrs) x bodyA2 (fun k => I k c) v inten (fun _ _ _ => eq_refl) cands) |]
+            end end
+        end.
+        { intros l q Hq. apply in_range_dec in Hq. unfold bodyA2. rewrite exec_block_cons, exec_if. kred.
+          rewrite !(aread2_ok IM nr nc) by (auto; lia). rewrite !HIMd by lia. rewrite Ev. cbn [of_img]. kred.
+          rewrite fle_jump. destruct (jump v _ inten); cbn [bz Z.eqb Pos.eqb].
+          - rewrite exec_block_cons. kred. reflexivity.
+          - rewrite exec_block_nil. rewrite exec_block_cons. kred. rewrite exec_block_nil. reflexivity. }
+        rewrite HL2. clear HL2. cbv beta.
+        match goal with |- context [fst (arm_scan ?a ?b ?c0 ?d ?e ?f)] => destruct (arm_scan a b c0 d e f) as [l2 q2] eqn:Es2 end. try rewrite Es2 in Hlast2. cbn [fst snd] in Hlast2 |- *.
+        assert (Hq2 : 0 <= q2 < nr).
+        { destruct Hlast2 as [-> | Hlast2]; [lia | apply in_range_dec in Hlast2; lia]. }
+        rewrite exec_block_cons; kred.
+        rewrite (aread2_ok IM nr nc) by (auto; lia). rewrite HIMd by lia. rewrite vun_isfinite_img. kred.
+        rewrite (awrite3_ok _ nr nc 4) by (auto; lia). kred.
+        (* ---- arm 3 *)
+        rewrite exec_block_cons; kred. rewrite exec_block_cons; kred.
+        rewrite exec_block_cons, exec_for; kred. rewrite py_range_up.
+        set (bodyA3 := exec_block _). knorm.
+        match goal with
+        | |- context [loop bodyA3 ?x ?cands (mkSt [?a0; ?a1; ?a2; ?a3; ?a4; ?a5; ?a6; ?a7; ?a8; ?a9; ?a10; ?a11; ?a12; ?a13] ?arrs)] =>
+            match a12 with Some (VInt ?L0) => match a13 with Some (VInt ?Q0) =>
+              pose proof (arm_scan_last (fun k => I k c) v inten cands L0 Q0) as Hlast3;
+              assert (HL3 : loop bodyA3 x cands (mkSt [a0; a1; a2; a3; a4; a5; a6; a7; a8; a9; a10; a11; a12; a13] arrs)
+                        = ROk ((fun l' q' => mkSt [a0; a1; a2; a3; a4; a5; a6; a7; a8; a9; a10; a11; Some (VInt l'); Some (VInt q')] arrs)
+                                 (fst (arm_scan (fun k => I k c) v inten cands L0 Q0))
+                                 (snd (arm_scan (fun k => I k c) v inten cands L0 Q0))));
+              [apply (loop_arm (fun l' q' => mkSt [a0; a1; a2; a3; a4; a5; a6; a7; a8; a9; a10; a11; Some (VInt l'); Some (VInt q')] arrs) x bodyA3 (fun k => I k c) v inten (fun _ _ _ => eq_refl) cands) |]
+            end end
+        end.
+        { intros l q Hq. apply in_range_inc in Hq. unfold bodyA3. rewrite exec_block_cons, exec_if. kred.
+          rewrite !(aread2_ok IM nr nc) by (auto; lia). rewrite !HIMd by lia. rewrite Ev. cbn [of_img]. kred.
+          rewrite fle_jump. destruct (jump v _ inten); cbn [bz Z.eqb Pos.eqb].
+          - rewrite exec_block_cons. kred. reflexivity.
+          - rewrite exec_block_nil. rewrite exec_block_cons. kred. rewrite exec_block_nil. reflexivity. }
+        rewrite HL3. clear HL3. cbv beta.
+        match goal with |- context [fst (arm_scan ?a ?b ?c0 ?d ?e ?f)] => destruct (arm_scan a b c0 d e f) as [l3 q3] eqn:Es3 end. try rewrite Es3 in Hlast3. cbn [fst snd] in Hlast3 |- *.
+        assert (Hq3 : 0 <= q3 < nr).
+        { destruct Hlast3 as [-> | Hlast3]; [lia | apply in_range_inc in Hlast3; lia]. }
+        rewrite exec_block_cons; kred.
+        rewrite (aread2_ok IM nr nc) by (auto; lia). rewrite HIMd by lia. rewrite vun_isfinite_img. kred.
+        rewrite (awrite3_ok _ nr nc 4) by (auto; lia). kred.
+        rewrite !exec_block_nil. knorm. eexists. split; [reflexivity|].
+        eexists _, (Some (VInt c)), _, _, _, _, _, _, _, _.
+        split; [reflexivity | split; [exact HC1 | split; [| split; [| split]]]].
+        - intros r' Hr' c' k Hc' Hk. rewrite !aupd3_other by (intro X; inversion X; lia). apply Hdone1; auto.
+        - intros r' c' k Hr'. rewrite !aupd3_other by (intro X; inversion X; lia). apply Hzero1; auto.
+        - intros c' k Hc' Hk. destruct (Z.eq_dec c' c) as [->|Hne].
+          + assert (Hcs : cs r c = mkArms (Z.max l0 (1 * bz (1 <=? c) * b2z (isfin (I r q0))))
+                                         (Z.max l1 (1 * bz (c <? nc - 1) * b2z (isfin (I r q1))))
+                                         (Z.max l2 (1 * bz (1 <=? r) * b2z (isfin (I q2 c))))
+                                         (Z.max l3 (1 * bz (r <? nr - 1) * b2z (isfin (I q3 c))))).
+            { unfold cs, Cbca.cross_support. rewrite Ev. unfold arm_dec, arm_inc, range_inc.
+              rewrite Es0, Es1, Es2, Es3. reflexivity. }
+            rewrite Hcs. unfold arm_at.
+            assert (Hk4 : k = 0 \/ k = 1 \/ k = 2 \/ k = 3) by lia.
+            destruct Hk4 as [-> | [-> | [-> | ->]]]; cbn [Z.eqb Pos.eqb aL aR aT aB];
+              rewrite ?aupd3_same; rewrite ?aupd3_other by (intro X; inversion X); rewrite ?aupd3_same;
+              rewrite ?aupd3_other by (intro X; inversion X); rewrite ?aupd3_same;
+              rewrite ?aupd3_other by (intro X; inversion X); rewrite ?aupd3_same; reflexivity.
+          + rewrite !aupd3_other by (intro X; inversion X; lia). apply Hlt; lia.
+        - intros c' k Hc'. rewrite !aupd3_other by (intro X; inversion X; lia). apply Hge. lia. }
+      rewrite E2'. replace (0 + nc) with nc in I2 by lia.
+      destruct I2 as (C2 & o5'' & o6'' & o7'' & o8'' & o9'' & o10'' & o11'' & o12'' & o13'' & -> & HC2 & Hdone2 & Hzero2 & Hlt2 & _).
+      rewrite exec_block_nil. eexists. split; [reflexivity|].
+      exists C2, (Some (VInt r)), o5'', o6'', o7'', o8'', o9'', o10'', o11'', o12'', o13''.
+      split; [reflexivity | split; [assumption | split]].
+      - intros r' Hr'. destruct (Z.eq_dec r' r) as [->|].
+        + intros c k Hc Hk. apply Hlt2; lia.
+        + apply Hdone2. lia.
+      - intros r' c' k Hr'. apply Hzero2. lia. }
+    rewrite E. replace (0 + nr) with nr in I' by lia.
+    destruct I' as (C & o4 & o5 & o6 & o7 & o8 & o9 & o10 & o11 & o12 & o13 & -> & HC & Hdone & _).
+    rewrite exec_block_nil. kred. exists C. split; [reflexivity|]. split; [exact HC|].
+    intros r c k Hr Hc Hk. apply (Hdone r Hr c k Hc Hk).
+  Qed.
+End CrossSupport.
